@@ -391,10 +391,10 @@ impl Property for C04 {
         vec![
             Family { name: "limits", kind: FamilyKind::Enumerated { count: limits().len() as u64, exhaustive: true } },
             Family { name: "scripts", kind: FamilyKind::Enumerated { count: scripts().len() as u64, exhaustive: true } },
-            Family { name: "programs", kind: FamilyKind::Random { cases: if q { 8_000 } else { 150_000 }, max_len: 800 } },
-            Family { name: "programs_triggers", kind: FamilyKind::Random { cases: if q { 3_000 } else { 50_000 }, max_len: 800 } },
-            Family { name: "programs_classes", kind: FamilyKind::Random { cases: if q { 3_000 } else { 50_000 }, max_len: 800 } },
-            Family { name: "programs_scopes", kind: FamilyKind::Random { cases: if q { 3_000 } else { 50_000 }, max_len: 800 } },
+            Family { name: "programs", kind: FamilyKind::Random { cases: if q { 30_000 } else { 300_000 }, max_len: 800 } },
+            Family { name: "programs_triggers", kind: FamilyKind::Random { cases: if q { 10_000 } else { 100_000 }, max_len: 800 } },
+            Family { name: "programs_classes", kind: FamilyKind::Random { cases: if q { 10_000 } else { 100_000 }, max_len: 800 } },
+            Family { name: "programs_scopes", kind: FamilyKind::Random { cases: if q { 10_000 } else { 100_000 }, max_len: 800 } },
         ]
     }
 
